@@ -53,6 +53,10 @@ Proof.
     all: try (right; destruct Hr as [_ [Hr1 Hr2]]; rewrite <- Hr1; rewrite nsrc_dedupb_filter; exact Hr2).
     all: try (intros _; destruct Hr as [_ [Hr1 Hr2]]; rewrite <- ?Hr1;
               match goal with E : pick_ok _ _ _ = true |- _ => rewrite (pick_ok_nsrc _ _ _ E); exact Hr2 end).
-    all: idtac "goal".
-    Show 1. Show 2. Show 3.
-Abort.
+    all: try (destruct Hr as [_ [Hr1 Hr2]]; rewrite <- Hr1; exact Hr2).
+    all: try (intros _; apply negb_false_iff in Heqb1; unfold justified in Heqb1; rewrite Hr in Heqb1;
+              unfold justified_decided in Heqb1; apply Nat.leb_le in Heqb1;
+              try (match goal with E : (round _ =? rnd _) = true |- _ => apply Nat.eqb_eq in E; rewrite E end); exact Heqb1).
+  - crush_fstep H. all: started_fact. all: constructor; st; auto; try discriminate; try congruence.
+    all: intro Hd; specialize (I1 Hd); discriminate.
+Qed.
